@@ -38,6 +38,12 @@ fn run_entry(entry: usize, text: &str) -> (Out, String) {
     }
 }
 
+/// The crate-private lexer through hook H2, with a panic reported instead of killing the harness.
+fn safe_lex(text: &str) -> Result<Option<Vec<String>>, String> {
+    let t = text.to_string();
+    qv::catch(move || quil_rs::verif::lex_debug(&t).ok())
+}
+
 fn out_coq(o: Out) -> &'static str {
     match o {
         Out::Ok => "OOk",
@@ -67,8 +73,16 @@ fn toks_to_coq(t: &[String]) -> Option<String> {
 impl Ctx {
     /// run the implementation; apply the emulated bug selected by QV_MUTANT to the observed outcome
     fn observed(&self, entry: usize, text: &str) -> (Out, String, Option<Vec<String>>) {
-        let (mut out, msg) = run_entry(entry, text);
-        let toks = quil_rs::verif::lex_debug(text).ok();
+        let (mut out, mut msg) = run_entry(entry, text);
+        let toks = match safe_lex(text) {
+            Ok(t) => t,
+            Err(m) => {
+                // the lexer itself panicked (the entry point may have caught nothing if it failed earlier)
+                out = Out::Panic;
+                msg = m;
+                None
+            }
+        };
         if let Some(t) = &toks {
             let ts: Vec<&str> = t.iter().map(|s| s.as_str()).collect();
             match self.mutant {
@@ -121,7 +135,7 @@ impl Ctx {
     /// All texts `prefix + " " + a` for `a` in the alphabet, at `entry`, as one grouped case (or as
     /// singles if the real lexer does not split some text into `lex(prefix) ++ lex(a)`).
     fn group(&mut self, entry: usize, alpha_id: &str, alpha: &[&str], alpha_toks: &[String], prefix: &str, class: &str) {
-        let ptoks = quil_rs::verif::lex_debug(prefix).ok();
+        let ptoks = safe_lex(prefix).unwrap_or(None);
         let mut obs = Vec::with_capacity(alpha.len());
         let mut compositional = ptoks.is_some();
         for (k, a) in alpha.iter().enumerate() {
